@@ -9,12 +9,12 @@ use vcommon::layout::{render, LayoutCfg};
 use vcommon::rng::Rng;
 use vcommon::runtime::{guarded, run_cases, Args, Recorder};
 
-const ENCODINGS: [&str; 10] = [
+pub const ENCODINGS: [&str; 10] = [
     "utf8", "utf8-bom", "utf16le", "utf16le-bom", "utf16be", "utf16be-bom", "utf32le", "utf32le-bom", "utf32be",
     "utf32be-bom",
 ];
 
-fn encode(s: &str, enc: &str) -> Vec<u8> {
+pub fn encode(s: &str, enc: &str) -> Vec<u8> {
     let mut out = Vec::new();
     let bom = enc.ends_with("-bom");
     let base = enc.trim_end_matches("-bom");
